@@ -134,6 +134,16 @@ CLAIMED = {
         "design_ref": "DESIGN.md §8 C04",
         "technique": "Lean 4 theorems (lexer round trip by induction, handler models, delegate = verdict) + T0 flag tables + T1 correspondence (bash_quote, 8 handler classify models, analyzer) + monotone-verdict search + real-tool jail (T2)",
     },
+    "C13": {
+        "text": "Proof (Lean 4): (1) the remote flag is constant through the walk of one tree (walk_flag_constant: mutual induction over every node, word, redirection, condition and arithmetic position), so a local analysis judges every command, raw text and "
+        "redirection of the outer command line locally (outer_commands_local, outer_texts_local, local_verdict_local_atoms with R1); the flag changes only at a handler's delegation (C04.delegate_verdict); (2) a remote walk consults no file-redirection atom "
+        "but still walks redirect targets and here-documents for substitutions; (3) remote rule lookups read neither the path environment, the cwd nor the aliases (remote_rules_env_free, remote_rules_alias_free) but every rule: a matching rule decides "
+        "(remote_rule_decides, remote_literal_deny); (4) a simple command whose lookups agree in both modes and whose handler reports no write targets gets the same verdict and reason (remote_eq_local_simple, induction through wrappers); (5) kubectl exec "
+        "delegates exactly the words after the first --, docker exec a non-empty suffix after the container. The docker/kubectl dispatch up to `exec` is an oracle (World.classify). Search on the implementation: delegate = analyze(INNER, remote=True), "
+        "remote <= local, path-free equality, deny rules bite, outer contexts keep their verdict.",
+        "design_ref": "DESIGN.md §8 C13",
+        "technique": "Lean 4 theorems (flag constancy by mutual induction, env-free remote matching, simple-command equality) + T1 correspondence in config mode (remote lookups computed by the model) + exec-extraction models + metamorphic search",
+    },
 }
 
 PENDING_REASON = "check not built yet in this round (DESIGN.md §10 build order); no technique other than Lean proof + correspondence is substituted"
